@@ -238,3 +238,29 @@ func RunSched(bin string, spec SchedSpec, timeout time.Duration, extraEnv ...str
 	}
 	return &rep, nil
 }
+
+func init() {
+	// warm the build cache for the controlled probe and for the -race probe (std lib with -race is the slow part)
+	SetupHooks = append(SetupHooks, func(env Env) error {
+		shared := filepath.Join(env.Scratch, "setup-shared-sched")
+		p := &Parent{Env: env, Shared: shared, Extra: map[string]any{}}
+		os.MkdirAll(shared, 0o755)
+		if err := PrepareSchedRuntime(p); err != nil {
+			return err
+		}
+		w := &W{Env: env, Shared: shared, Dir: filepath.Join(env.Scratch, "setup-w-sched")}
+		os.MkdirAll(w.Dir, 0o755)
+		os.Chdir(w.Dir)
+		DriverInit()
+		cfg := &Cfg{Meta: &Meta{Pkg: P("gen"), Imports: []KV{{"pk", "fx/pk"}}}, Params: []Param{{"p", "a%q%"}, {"q", 1}}, Services: []Service{{Name: "s", Constructor: P("pk.New"), Args: []any{"%p%"}}}}
+		br := w.Build([]File{{"c.yaml", cfg.YAML()}})
+		if !br.OK() {
+			return fmt.Errorf("setup: minimal configuration rejected:\n%s", br.Out)
+		}
+		if _, err := w.BuildSchedProbe(br.Output, "NewGontainer", false); err != nil {
+			return err
+		}
+		_, err := w.BuildSchedProbe(br.Output, "NewGontainer", true)
+		return err
+	})
+}
